@@ -31,7 +31,7 @@ theorem marked_when_unconfirmed (cfg : Switchover.Cfg) (i : Switchover.In) (ps :
     (hsplit : Switchover.performSwitchover cfg i = pre ++ Switchover.Step.resetSlaveAll h ok :: post)
     (hu : Unconfirmed i mr.gtid) :
     Switchover.Step.setRecovery i.oldMaster true ∈ pre := by
-  sorry
+  exact SwitchoverLemmas.marked_when_unconfirmed cfg i ps mr pre post h ok hpos hmr hsplit hu
 
 /-- a node found claiming to be master beside the recorded one is made read-only, taken offline, its
 semi-sync switched off, re-pointed to the recorded master and marked — in that order, in the same pass -/
@@ -85,7 +85,7 @@ theorem promoted_is_listed (cfg : Switchover.Cfg) (i : Switchover.In) (h : Strin
     (hs : Switchover.Step.setWritable h ok ∈ Switchover.performSwitchover cfg i)
     (hpos : ∀ ps, i.positions = some ps → ∀ p ∈ ps, p.host ∈ Switchover.frozen i) :
     h ∈ i.active := by
-  sorry
+  exact SwitchoverLemmas.promoted_is_listed cfg i h ok hs hpos
 
 /-- the mark is cleared only when it exists, no resetup is pending, the node is a read-only replica
 whose replication is not in error and whose transactions are contained in the master's -/
